@@ -7,7 +7,7 @@
    scancode closure check (C01 / C02) and C04 + C14 (event decoder) into one refinement. *)
 From Coq Require Import NArith Arith Bool List Lia.
 From PK Require Import Base.Outcome Base.Ctl Base.Finite Base.Machine Base.Sim Gen.Types Gen.Lib Impl
-  Spec.Frame Spec.Event Spec.Compose Spec.Pipeline Syn.Ps2 Check.Ps2M Check.C06 Check.Scan.
+  Spec.Frame Spec.EventRec Spec.Compose Spec.Pipeline Syn.Ps2 Check.Ps2M Check.C06 Check.Scan.
 From PK Require Props.C18.
 Import ListNotations.
 Local Open Scope N_scope.
